@@ -65,6 +65,13 @@ def gen_schedule(rng, i, tier):
         files[base + 'config/merchants.rules.bak'] = '# an older copy of my rules\n[Old]\nmatch: contains("OLD")\ncategory: Old\n'
     if rng.random() < 0.1:
         files[base + 'config/.tally-schema'] = '1\n'
+    # files edited on another platform: CRLF line endings, trailing blanks, missing final newline
+    for r_ in sorted(files):
+        if r_.endswith(('.yaml', '.rules', '.csv')) and rng.random() < 0.15:
+            files[r_] = files[r_].replace('\r\n', '\n').replace('\n', '\r\n')
+    sp_ = base + 'config/settings.yaml'
+    if rng.random() < 0.1:
+        files[sp_] = files[sp_].rstrip('\n') + rng.choice(['', '\n\n\n', '  \n', '\n# end'])
     snap = {r: c.encode('utf-8') for r, c in files.items()}
     snap['elsewhere/'] = None
     cfg = base + 'config'
